@@ -27,7 +27,7 @@ func init() {
 		},
 		Run:            c05Run,
 		Floor:          func(tier string) int { return 2000 },
-		Rule:           "generated 1-D and 2-D convolutions: N, C, M in 1..3, spatial extents 1..7 (H != W favoured), kernel extents 1..3 (kh != kw favoured), strides and dilations 1..3 per axis independently, pads 0..3 per side independently, the four auto_pad modes, kernel_shape given or inferred, bias absent / skipped by \"\" / present, prime-valued signed data; invalid: group != 1, 3-D input, kernel channels != input channels, kernel larger than the padded image, bias length != M, kernel_shape contradicting W. float32 MUST_EQUAL (ONNX output shape; every element within the dot-product rounding bound of the direct float64 convolution), float64 MAY_REFUSE, invalid/unsupported MUST_ERROR. Non-trivial = the geometry is asymmetric in at least one way (H != W, kh != kw, per-axis strides/dilations differ, begin/end pads differ, auto_pad set) and a reference with begin/end pads exchanged or axes exchanged gives a different answer; distinct = (shapes, attributes)." + ruleShared + ruleReused,
+		Rule:           "(also up to 40 filters, spatial extents of 8-14 / 18-26 / 97-104 with pads up to 12, and one case in eight under GOMAXPROCS 1/2/3/5/7) generated 1-D and 2-D convolutions: N, C, M in 1..3, spatial extents 1..7 (H != W favoured), kernel extents 1..3 (kh != kw favoured), strides and dilations 1..3 per axis independently, pads 0..3 per side independently, the four auto_pad modes, kernel_shape given or inferred, bias absent / skipped by \"\" / present, prime-valued signed data; invalid: group != 1, 3-D input, kernel channels != input channels, kernel larger than the padded image, bias length != M, kernel_shape contradicting W. float32 MUST_EQUAL (ONNX output shape; every element within the dot-product rounding bound of the direct float64 convolution), float64 MAY_REFUSE, invalid/unsupported MUST_ERROR. Non-trivial = the geometry is asymmetric in at least one way (H != W, kh != kw, per-axis strides/dilations differ, begin/end pads differ, auto_pad set) and a reference with begin/end pads exchanged or axes exchanged gives a different answer; distinct = (shapes, attributes)." + ruleShared + ruleReused,
 		RaceInThorough: true,
 		Technique:      "runtime monitoring: differential execution against a direct nested-loop convolution in float64 with a sound dot-product error bound; discriminative non-triviality rule",
 		Assumptions:    []string{"ONNX Conv formulas as written in DESIGN.md Appendix A.5 (auto_pad on the dilated kernel extent)"},
